@@ -1,0 +1,171 @@
+//! Verification hooks. Compiled only with `--cfg rzmq_verif`; without that flag this
+//! module does not exist and the `verif_point!` / `verif_event!` macros expand to nothing.
+//!
+//! Three things live here, none of which carries logic of its own:
+//!   * `point(name)`  - a scheduling point. A controller installed on the *current thread*
+//!                      is called with the name and may block; otherwise a no-op.
+//!   * `event(..)`    - a trace record, appended to a process-wide recorder when one is
+//!                      enabled. Records get a global sequence number at emission.
+//!   * `facade`       - thin wrappers that make crate-private components constructible
+//!                      from an external harness crate (delegation only).
+
+use std::cell::RefCell;
+use std::sync::atomic::{AtomicBool, AtomicU64, Ordering};
+use std::sync::{Arc, Mutex};
+
+// ---------------------------------------------------------------------------
+// Scheduling points
+// ---------------------------------------------------------------------------
+
+pub type PointFn = Arc<dyn Fn(&'static str) + Send + Sync>;
+
+thread_local! {
+  static POINT_HOOK: RefCell<Option<PointFn>> = const { RefCell::new(None) };
+}
+
+/// Install (or clear) the scheduling-point hook of the calling thread.
+pub fn set_point_hook(hook: Option<PointFn>) {
+  POINT_HOOK.with(|h| *h.borrow_mut() = hook);
+}
+
+#[inline]
+pub fn point(name: &'static str) {
+  let hook = POINT_HOOK.with(|h| h.borrow().clone());
+  if let Some(h) = hook {
+    h(name);
+  }
+}
+
+// ---------------------------------------------------------------------------
+// Trace events
+// ---------------------------------------------------------------------------
+
+static REC_ON: AtomicBool = AtomicBool::new(false);
+static REC_SEQ: AtomicU64 = AtomicU64::new(0);
+static REC_BUF: Mutex<Vec<String>> = Mutex::new(Vec::new());
+
+/// Start recording (clears anything recorded before).
+pub fn recorder_start() {
+  let mut g = REC_BUF.lock().unwrap_or_else(|e| e.into_inner());
+  g.clear();
+  REC_SEQ.store(0, Ordering::SeqCst);
+  REC_ON.store(true, Ordering::SeqCst);
+}
+
+/// Stop recording and return the records (ndjson lines, in emission order).
+pub fn recorder_stop() -> Vec<String> {
+  REC_ON.store(false, Ordering::SeqCst);
+  let mut g = REC_BUF.lock().unwrap_or_else(|e| e.into_inner());
+  std::mem::take(&mut *g)
+}
+
+/// Snapshot the records without stopping.
+pub fn recorder_snapshot() -> Vec<String> {
+  REC_BUF.lock().unwrap_or_else(|e| e.into_inner()).clone()
+}
+
+#[inline]
+pub fn recording() -> bool {
+  REC_ON.load(Ordering::Relaxed)
+}
+
+/// Append one record. `body` is the inside of a JSON object without braces, e.g.
+/// `"sca":3,"n":2`; `ev` is the event name. The sequence number is taken and the line
+/// is appended under one lock, so file order equals sequence order.
+pub fn event(ev: &str, body: &str) {
+  if !REC_ON.load(Ordering::Relaxed) {
+    return;
+  }
+  let mut g = REC_BUF.lock().unwrap_or_else(|e| e.into_inner());
+  let seq = REC_SEQ.fetch_add(1, Ordering::SeqCst) + 1;
+  if body.is_empty() {
+    g.push(format!("{{\"seq\":{},\"ev\":\"{}\"}}", seq, ev));
+  } else {
+    g.push(format!("{{\"seq\":{},\"ev\":\"{}\",{}}}", seq, ev, body));
+  }
+}
+
+/// First `n` bytes as lowercase hex (message ids in trace records).
+pub fn hex_prefix(data: &[u8], n: usize) -> String {
+  let mut s = String::with_capacity(2 * n.min(data.len()));
+  for b in data.iter().take(n) {
+    s.push_str(&format!("{:02x}", b));
+  }
+  s
+}
+
+// ---------------------------------------------------------------------------
+// Facade
+// ---------------------------------------------------------------------------
+
+pub mod facade {
+  use crate::error::ZmqError;
+  use crate::message::{FrameBatch, Msg};
+  use crate::protocol::zmtp::engine::ZmtpEngine;
+  use crate::security::framer::encoder::ZmtpFrameEncoder;
+  use crate::security::framer::{ISecureFramer, NullFramer};
+  use crate::socket::options::{apply_core_option_value, SocketOptions, ZmtpEngineConfig};
+  use bytes::{Bytes, BytesMut};
+  use std::sync::Arc;
+
+  /// Build a `ZmtpEngine` exactly as the transports do: default `SocketOptions`, the
+  /// given option values applied through `apply_core_option_value`, converted with
+  /// `ZmtpEngineConfig::from`.
+  pub fn engine_from_options(
+    is_server: bool,
+    socket_type_name: &str,
+    opts: &[(i32, Vec<u8>)],
+  ) -> Result<ZmtpEngine, ZmqError> {
+    let mut so = SocketOptions::default();
+    so.socket_type_name = socket_type_name.to_string();
+    for (id, v) in opts {
+      apply_core_option_value(&mut so, *id, v)?;
+    }
+    let cfg = Arc::new(ZmtpEngineConfig::from(&so));
+    Ok(ZmtpEngine::new(is_server, cfg))
+  }
+
+  /// `NullFramer` (the plain ZMTP framer used on NULL/PLAIN connections).
+  pub struct NullFramerX(NullFramer);
+  impl NullFramerX {
+    pub fn new(max_msg_size: i64, sndbatch_count: usize, sndbatch_bytes_physical: usize) -> Self {
+      Self(NullFramer::new(max_msg_size, sndbatch_count, sndbatch_bytes_physical))
+    }
+    pub fn try_read_msg(&mut self, buf: &mut BytesMut) -> Result<Option<Msg>, ZmqError> {
+      self.0.try_read_msg(buf)
+    }
+    pub fn write_msg_multipart(&mut self, msgs: FrameBatch) -> Result<Bytes, ZmqError> {
+      self.0.write_msg_multipart(msgs)
+    }
+    pub fn write_msg_batch(&mut self, batch: &[FrameBatch]) -> Result<Bytes, ZmqError> {
+      self.0.write_msg_batch(batch)
+    }
+    pub fn write_msg_split(&mut self, msg: Msg) -> Result<(Bytes, Option<Bytes>), ZmqError> {
+      self.0.write_msg_split(msg)
+    }
+    pub fn frame_vectored(&mut self, batch: &[FrameBatch]) -> Result<Vec<Bytes>, ZmqError> {
+      self.0.frame_vectored(batch)
+    }
+    pub fn try_read_msgs_from_bytes(
+      &mut self,
+      data: Bytes,
+      acc: &mut BytesMut,
+    ) -> Result<Vec<Msg>, ZmqError> {
+      self.0.try_read_msgs_from_bytes(data, acc)
+    }
+  }
+
+  /// `ZmtpFrameEncoder` (batch framer shared by all data-phase framers).
+  pub struct FrameEncoderX(ZmtpFrameEncoder);
+  impl FrameEncoderX {
+    pub fn new(header_cap: usize, coalesce_cap: usize) -> Self {
+      Self(ZmtpFrameEncoder::new(header_cap, coalesce_cap))
+    }
+    pub fn frame_contiguous(&mut self, batch: &[FrameBatch]) -> Result<Bytes, ZmqError> {
+      self.0.frame_contiguous(batch)
+    }
+    pub fn frame_vectored(&mut self, batch: &[FrameBatch]) -> Result<Vec<Bytes>, ZmqError> {
+      self.0.frame_vectored(batch)
+    }
+  }
+}
